@@ -30,7 +30,7 @@ pub fn parse_debug(text: &str) -> Result<String, String> {
 }
 
 const COLS: [&str; 6] = ["x", "y", "z", "a", "b", "t.x"];
-const TYPES: [&str; 7] = ["int", "real", "text", "boolean", "timestamp", "interval", "int[]"];
+const TYPES: [&str; 6] = ["int", "real", "text", "boolean", "timestamp", "interval"];
 const FUNCS1: [&str; 6] = ["abs", "sqrt", "length", "upper", "lower", "array_length"];
 const FUNCS2: [&str; 5] = ["least", "greatest", "pow", "array_cat", "regexp_matches"];
 const PARTS: [&str; 4] = ["EPOCH", "YEAR", "HOUR", "SECOND"];
@@ -268,8 +268,8 @@ impl Property for C13 {
 
     fn cases(&self, tier: Tier) -> u64 {
         match tier {
-            Tier::Quick => 60_000,
-            Tier::Thorough => 2_000_000,
+            Tier::Quick => 400_000,
+            Tier::Thorough => 10_000_000,
         }
     }
 
